@@ -33,6 +33,8 @@ RULE_TEXT = (
     "per-byte E110 excepted). Family MC_LexAlias: for 26 lexically significant ASCII bytes b the scalar values b + 2^8, b + 2^10 "
     "(thorough: also b + 2^13, b + 2^16; their low byte / low seven bits are b) after an identifier, keyword, integer, suffix, "
     "radix prefix, inside literals and comments, at both ends of the text (16 prefixes x 8 suffixes). "
+    "Family MC_LexNumbers: hexadecimal / binary / decimal literals of 31..33 / 127..129 digits and around 2^128 / 10^39 with 0..2 leading "
+    "zeros, the digit separator nowhere / in groups / after every digit / at the end, with and without a suffix (516 texts). "
     "Second enumerated family (MC_LexPairs): every ordered pair of representative token spellings "
     "(80 quick / 173 thorough: every operator, keyword, type, identifier / integer / char / string spelling class incl. 128-bit "
     "literals and all suffixes) joined by 8 separators (nothing, space, tab, LF, CRLF, comments, mixed). Thorough only: random texts of 5..12 symbols "
@@ -229,6 +231,12 @@ def run_enumeration(rep, tier, tally, seed=1):
         (cfg, r.distinct, len(r.cases), r.wall, "tiling invariants hold" if r.ok else "INVARIANT VIOLATED"))
     stats["alias_texts"] = len(r.cases)
     absorb(r, "alias")
+    # fourth family: integer literals at the 128-bit boundary in every spelling (leading zeros, digit separators, suffix)
+    r = common.tlc("MC_LexNumbers", "MC_LexNumbers.cfg", workers=6, timeout=1700, heap="4g", tag="C14-mc-numbers", keep_output=False)
+    log("[tlc] MC_LexNumbers: %d states, %d boundary literals, %.1fs, %s" %
+        (r.distinct, len(r.cases), r.wall, "tiling invariants hold" if r.ok else "INVARIANT VIOLATED"))
+    stats["number_texts"] = len(r.cases)
+    absorb(r, "numbers")
     return stats
 
 
@@ -441,6 +449,7 @@ def run(rep, tier, seed, selftest):
         "tlc_runs": stats["runs"],
         "token_pair_texts": stats.get("pair_texts", 0),
         "class_aliasing_character_texts": stats.get("alias_texts", 0),
+        "boundary_literal_texts": stats.get("number_texts", 0),
         "scaled_texts": big,
         "windows_of_long_random_texts": info["windows_of_long_texts"],
         "longest_random_text_bytes": info["longest_text"],
